@@ -322,6 +322,61 @@ def c18(ck):
                                                 got=out.decode("utf-8", "replace")[:800], expected=exp.decode("utf-8", "replace")[:800], stderr=err[-300:], exit=rc))
                     elif rc != 0:
                         ck.failures.append(dict(desc, what="the bridge did not exit successfully after the client closed its side", exit=rc, stderr=err[-300:]))
+        # the service ends the session first while the client keeps its side open and idle: the client of the bridge sees
+        # the reply and then end-of-stream, as a direct client does, and the bridge exits successfully
+        sv = sv_par
+        for mode in ("connect", "activate", "bridge"):
+            args = {"connect": ["bridge", "--connect", sv.a],
+                    "activate": ["--activate", "%s --listen $VARLINK_ADDRESS" % harness_bin("h_actsrv"), "bridge"],
+                    "bridge": ["--bridge", "%s --stdio" % harness_bin("h_actsrv"), "bridge"]}[mode]
+            for script in (["r", "x"], ["x"]):
+                rq1 = rq(A, script, "bye")
+                p = subprocess.Popen([CLI] + args, stdin=subprocess.PIPE, stdout=subprocess.PIPE, stderr=subprocess.DEVNULL, env=ENV)
+                p.stdin.write(enc(rq1))
+                p.stdin.flush()
+                fd = p.stdout.fileno()
+                os.set_blocking(fd, False)
+                got, eof = b"", False
+                t0 = time.time()
+                while not eof and time.time() - t0 < 6:
+                    r, _, _ = select.select([fd], [], [], 0.05)
+                    if r:
+                        try:
+                            b_ = os.read(fd, 65536)
+                        except BlockingIOError:
+                            continue
+                        if not b_:
+                            eof = True
+                        got += b_
+                rc_open = None
+                t1 = time.time()
+                while time.time() - t1 < 3 and rc_open is None:
+                    rc_open = p.poll()
+                    time.sleep(0.02)
+                try:
+                    p.stdin.close()
+                except Exception:
+                    pass
+                if rc_open is None:
+                    try:
+                        p.wait(timeout=3)
+                    except subprocess.TimeoutExpired:
+                        p.kill()
+                        p.wait()
+                p.stdout.close()
+                ck.case("service-closes-first|%s|%s" % (mode, script))
+                ck.count("service_closes_first")
+                want = 1 if "r" in script else 0
+                if mode == "bridge":
+                    continue_ok = True      # (a --stdio service ends with its input, not on its own: observed only, not judged)
+                    if not eof:
+                        continue
+                if got.count(b"\0") != want or not eof or rc_open is None:
+                    ck.failures.append({"what": "the service closed the session first (client side still open and idle): the bridge's client did not see the reply followed by "
+                                                "end-of-stream, or the bridge did not exit", "mode": mode, "script": script,
+                                        "replies_seen": got.count(b"\0"), "end_of_stream_within_6s": eof, "bridge_exit_while_stdin_open": rc_open})
+                elif rc_open != 0:
+                    ck.failures.append({"what": "the bridge did not report success after the service ended the session", "mode": mode, "script": script, "exit": rc_open})
         # upgraded sessions
         sv = sv_par
         for mode in ("resolver", "connect"):
